@@ -566,6 +566,37 @@ def _simple_return(st):
     return isinstance(st, ast.Return) and (st.value is None or isinstance(st.value, (ast.Name, ast.Constant)))
 
 
+def _split_assign(st):
+    """N23: `a, b = x, y` -> `a = x; b = y` when no later element reads an earlier target; `a = b = K` (K a constant or a plain name) -> `a = K; b = K`."""
+    if len(st.targets) > 1 and isinstance(st.value, (ast.Constant, ast.Name)):
+        out = []
+        for t in st.targets:
+            a = ast.copy_location(ast.Assign(targets=[t], value=copy.deepcopy(st.value), type_comment=None), st)
+            ast.fix_missing_locations(a)
+            out.append(a)
+        return out
+    if len(st.targets) == 1 and isinstance(st.targets[0], (ast.Tuple, ast.List)) and isinstance(st.value, (ast.Tuple, ast.List)) \
+            and len(st.targets[0].elts) == len(st.value.elts) and len(st.value.elts) >= 2 \
+            and not any(isinstance(x, ast.Starred) for x in list(st.targets[0].elts) + list(st.value.elts)) \
+            and all(isinstance(t, (ast.Name, ast.Attribute)) for t in st.targets[0].elts):
+        tg, vs = st.targets[0].elts, st.value.elts
+        for j in range(1, len(vs)):
+            earlier = {ast.unparse(t) for t in tg[:j]} | {t.id for t in tg[:j] if isinstance(t, ast.Name)}
+            for x in ast.walk(vs[j]):
+                if isinstance(x, (ast.Name, ast.Attribute)) and ast.unparse(x) in earlier:
+                    return None
+            # a call in a later element could read an earlier target through the object: only plain values after the first element
+            if any(isinstance(x, ast.Call) for x in ast.walk(vs[j])) and any(isinstance(t, ast.Attribute) for t in tg[:j]):
+                return None
+        out = []
+        for t, v in zip(tg, vs):
+            a = ast.copy_location(ast.Assign(targets=[t], value=v, type_comment=None), st)
+            ast.fix_missing_locations(a)
+            out.append(a)
+        return out
+    return None
+
+
 def _sink_returns(stmts):
     """N22: `<if / try> ; return v` -> the return is copied to the end of every branch that falls through (v a plain name or constant, so the
     copy cannot raise and evaluates nothing twice); `x = E; return x` -> `return E`.  Single-exit code and early-return code get one form."""
@@ -1118,6 +1149,12 @@ class Normalizer:
             ast.fix_missing_locations(new)
             return self._stmt(new, modname, cname, stack, state)
         if isinstance(st, ast.Assign):
+            split = _split_assign(st)
+            if split is not None:
+                out = []
+                for s_ in split:
+                    out += self._stmt(s_, modname, cname, stack, state)
+                return out
             low = self._dict_get_lowering(st, modname, cname, state)
             if low is not None:
                 return low
